@@ -22,191 +22,28 @@ CI = "y0.algorithm.conditional_independencies"
 
 
 def analyse_are_d_separated(model: Model, rep: Report, rule_prefix: str = "R4") -> None:
-    f = model.func(f"{CI}.are_d_separated")
-    ev = Evaluator(model, primitives=set(GRAPH_PRIMS) | {"y0.struct.DSeparationJudgement.create"})
-    G = graph_var(ev, "graph")
-    a = typed(ev, "a", ("cls", VARIABLE))
-    b = typed(ev, "b", ("cls", VARIABLE))
-    C = typed(ev, "conditions", ("iter", ("cls", VARIABLE)))
-    paths = ev.run(f, {"graph": G, "a": a, "b": b, "conditions": C})
-    sa = SetAlg(rewrite=rewriter(graph_rewrite))
-    rets = return_paths(paths)
-    R1, R2, R3, R4 = (f"{rule_prefix}.{i}" for i in (1, 2, 3, 4))
-    # ---- R4.4 validation
-    bad = [p for p in paths if p.kind == "raise" and exc_name(p) not in ("TypeError", "KeyError")]
-    if bad:
-        rep.refuted(R4, construct(f, "validation"), f"raises {exc_name(bad[0])} (only TypeError/KeyError on malformed arguments are part of the contract)", loc(f, bad[0].line))
-    else:
-        rep.proven(R4, construct(f, "validation"), loc=loc(f), sample={"raise paths": len(paths) - len(rets)})
-    if len(rets) != 1:
-        rep.unknown(R1, construct(f, "pipeline"), f"{len(rets)} return paths", loc(f))
-        return
-    v = rets[0].value
-    kw = kwargs_of(v)
-    if not (v[0] == "call" and str(v[1]).endswith("DSeparationJudgement.create")):
-        rep.refuted(R3, construct(f, "record"), "the verdict is not wrapped by DSeparationJudgement.create (canonical record)", loc(f))
-        return
-    x = var("%x")
-    okrec = kw.get("left") in (a, b) and kw.get("right") in (a, b) and kw.get("left") != kw.get("right") and compare(sa.member(x, kw.get("conditions")), sa.member(x, C))[0]
-    (rep.proven if okrec else rep.refuted)(R3, construct(f, "record"), "" if okrec else "the judgement does not record (a, b, conditions)", loc(f))
-    sep = kw.get("separated")
-    # separated = not has_path(E, a, b)
-    core = sep
-    neg = 0
-    while core is not None and core[0] in ("not", "truth"):
-        if core[0] == "not":
-            neg += 1
-        core = core[1]
-    if not (core is not None and core[0] == "call" and core[1].endswith("has_path") and neg == 1):
-        rep.refuted(R1, construct(f, "pipeline"), "verdict is not `no path between a and b in the evidence graph`: " + short(show(sep), 160), loc(f))
-        return
-    E, pa, pb = core[2][0], core[2][1], core[2][2]
-    problems1 = []
-    if {pa, pb} != {a, b}:
-        problems1.append("reachability is not tested between a and b")
-    # E = M.subgraph(nodes(M) ∖ C)
-    if not (E[0] == "meth" and E[2] == "subgraph"):
-        problems1.append("the conditioning set is not deleted from the moral graph before the reachability test")
-        M = E
-    else:
-        M = E[1]
-        keep = (list(E[3]) + [t for _, t in E[4]])[0]
-        mnodes = [s for s in subterms(keep) if s[0] in ("attr", "meth") and (s[2] if s[0] == "attr" else s[2]) == "nodes" and s[1] == M]
-        nodesM = ("attr", M, "nodes")
-        want = f_and(sa.member(x, nodesM), f_not(sa.member(x, C)))
-        got = sa.member(x, keep)
-        got2 = sa.member(x, subst_nodes(keep, M))
-        if not compare(got2, f_and(sa.member(x, ("NODES", M)), f_not(sa.member(x, C))))[0]:
-            problems1.append("the node set kept after moralisation is not nodes(moral graph) ∖ conditions")
-    # M = nx.moral_graph(L)
-    if not (M[0] == "call" and M[1].endswith("moral_graph")):
-        # pre-fix form: graph.subgraph(keep).moralize().disorient()
-        if M[0] == "meth" and M[2] == "disorient" and M[1][0] == "meth" and M[1][2] == "moralize":
-            rep.refuted(R2, construct(f, "moral-bidirected"),
-                        "moralisation marries only co-parents along directed edges (NxMixedGraph.moralize) and then keeps bidirected edges as plain links: "
-                        "in A <-> C <-> B (or A -> C <-> B) the collider C, when conditioned on, does not join A and B", loc(f))
-            anc = M[1][1]
-        else:
-            rep.unknown(R2, construct(f, "moral-bidirected"), "moralisation stage not recognised: " + short(show(M), 160), loc(f))
-            anc = None
-    else:
-        L = M[2][0]
-        anc = _check_latent_expansion(rep, f, R2, L, sa)
-    # anc = G.subgraph(G.ancestors_inclusive({a,b} ∪ C))
-    if anc is not None:
-        if not (anc[0] == "meth" and anc[2] == "subgraph" and anc[1] == G):
-            problems1.append("the graph is not restricted to an ancestral sub-graph before moralising")
-        else:
-            k = kwargs_of(anc).get("vertices")
-            if not (k and k[0] == "meth" and k[2] == "ancestors_inclusive" and k[1] == G):
-                problems1.append("the restriction is not to the ancestors (in the whole graph) of the named nodes: " + short(show(k), 100))
-            else:
-                named = kwargs_of(k).get("sources")
-                want = f_or(sa.eq_atom(x, a), sa.eq_atom(x, b), sa.member(x, C))
-                eq, row, _ = compare(sa.member(x, named), want)
-                if not eq:
-                    problems1.append(f"the ancestral set is not An({{a, b}} ∪ C): differs for a node with [{show_row(row)}]")
-    (rep.refuted if problems1 else rep.proven)(R1, construct(f, "pipeline"), "; ".join(problems1), loc(f), sample={"evidence graph": short(show(E), 400)})
-    # hash order must not reach the record
-    crt = model.func("y0.struct.DSeparationJudgement.create")
-    ev2 = Evaluator(model)
-    l = typed(ev2, "left", ("cls", VARIABLE))
-    r = typed(ev2, "right", ("cls", VARIABLE))
-    cs = typed(ev2, "conditions", ("iter", ("cls", VARIABLE)))
-    rets2 = return_paths(ev2.run(crt, {"left": l, "right": r, "conditions": cs}, self_term=("ref", "y0.struct.DSeparationJudgement")))
-    problems = []
+    """are_d_separated() and the judgement record against the moralisation criterion written out in yv/refs/c04_ref.py (validation and its
+    exception classes, ancestral sub-graph, one latent parent per bidirected edge, moral graph, deletion of the conditions, reachability;
+    the record in name order).  networkx graphs are compared by what they contain (node set, edge set), whatever calls built them."""
+    from .. import nxden
+    from ..refcmp import load_reference, run_table
 
-    def mentions_both(t):
-        subs = list(subterms(t))
-        return any(s_ == l for s_ in subs) and any(s_ == r for s_ in subs)
-
-    ordered = False
-    for rr in rets2:
-        problems += leaks(ev2, rr.value, rr.conds)
-        if rr.value[0] == "rec":
-            fl = dict(rr.value[2])
-            # the canonical pair must be decided by an ORDER comparison of the two endpoints (sorted / min / max / a < b swap), so that
-            # create(a, b) and create(b, a) are the same record; and the conditions must be put in a sorted order
-            pair_terms = (fl.get("left"), fl.get("right"))
-            by_call = all(any(s_[0] == "call" and s_[1] in ("sorted", "min", "max") and mentions_both(s_) for s_ in subterms(t)) for t in pair_terms)
-            by_cmp = any(s_[0] in ("lt", "le") and mentions_both(s_) for c in rr.conds for s_ in subterms(c)) and all(t in (l, r) for t in pair_terms) and pair_terms[0] != pair_terms[1]
-            if by_call or by_cmp:
-                ordered = True
-            else:
-                problems.append("the endpoints are stored as given: create(a, b) and create(b, a) are different records (they must be ordered by a comparison of the two)")
-            cond_t = fl.get("conditions")
-            if not any(s_[0] == "call" and s_[1] == "sorted" for s_ in subterms(cond_t)):
-                problems.append("conditions are not sorted")
-    if not rets2:
-        problems.append("create has no return path")
-    (rep.refuted if problems else rep.proven)(R3, construct(crt, "canonical"), "; ".join(sorted(set(problems))), loc(crt))
-
-
-def subst_nodes(t: Term, M: Term) -> Term:
-    from ..terms import mapterm
-
-    def f(s):
-        if s[0] in ("attr", "meth") and s[1] == M and s[2] == "nodes":
-            return ("NODES", M)
-        return None
-
-    return mapterm(t, f)
-
-
-def _check_latent_expansion(rep: Report, f, rule: str, L: Term, sa: SetAlg):
-    """L must be a fresh DiGraph with the ancestral graph's nodes and directed edges plus, for EVERY bidirected edge
-    (u, v), a fresh node with edges to u and to v.  Returns the ancestral graph term.  The builder may use any mix of add_node(s_from) /
-    add_edge(s_from), loops, generators, chains or `for w in (u, v)` (normalised by nx_builder_parts)."""
-    from .common import nx_builder_parts
-    cons = construct(f, "moral-bidirected")
-    parts = nx_builder_parts(L, sa)
-    if parts is None:
-        if any(s[0] in ("meth", "call") and "latent_variable_dag" in str(s[2] if s[0] == "meth" else s[1]) for s in subterms(L)):
-            rep.proven(rule, cons, loc=loc(f), sample={"idiom": "to_latent_variable_dag"})
-            return None
-        rep.unknown(rule, cons, "latent expansion not recognised: " + short(show(L), 160), loc(f))
-        return None
-    _, nodes, edges = parts
-    anc = None
-    node_ok = edge_ok = False
-    lat: dict = {}
-    problems = []
-    for el, gens in nodes:
-        if el[0] == "ALL" and not gens and el[1][0] == "V":
-            node_ok = True
-            anc = el[1][1]
-    for el, gens in edges:
-        if el[0] == "ALL" and not gens and el[1][0] == "Ed":
-            edge_ok = True
-            anc = anc or el[1][1]
-            continue
-        if el[0] == "tuplelit" and len(el[1]) == 2 and gens:
-            pat, it, conds = gens[-1] if len(gens) == 1 else gens[0]
-            src = sa.strip(it)
-            if src[0] == "Eu" and pat[0] == "tuplelit" and len(pat[1]) == 2:
-                u, v = pat[1]
-                latent, tgt = el[1]
-                allconds = [c for _, _, cs in gens for c in cs]
-                if allconds:
-                    problems.append("some bidirected edges of the ancestral graph get no latent parent (the loop over bidirected edges is filtered by `"
-                                    + short(show(allconds[0]), 100) + "`): a conditioned collider reached through such an edge does not open the path")
-                if not (any(s == u for s in subterms(latent)) and any(s == v for s in subterms(latent))):
-                    problems.append("the latent node does not identify its edge (two bidirected edges could share one latent)")
-                lat.setdefault(src[1], set()).add("u" if tgt == u else "v" if tgt == v else "?")
-    if not node_ok:
-        problems.append("the nodes of the ancestral graph are not added (isolated ancestors disappear)")
-    if not edge_ok:
-        problems.append("the directed edges of the ancestral graph are not added")
-    if not lat:
-        problems.append("no latent common parent is added for bidirected edges: the moral graph ignores them")
-    else:
-        for g, ends in lat.items():
-            if ends != {"u", "v"}:
-                problems.append("a latent parent must point to both endpoints of its bidirected edge")
-            if anc is not None and g != anc:
-                problems.append("bidirected edges are taken from a different graph than the directed ones")
-    (rep.refuted if problems else rep.proven)(rule, cons, "; ".join(sorted(set(problems))), loc(f), sample={"latent DAG": short(show(L), 400)})
-    return anc
+    if "yvref.c04" not in model.modules:
+        load_reference(model, "yvref.c04", "c04_ref.py")
+    V = ("cls", VARIABLE)
+    G = ("cls", NXMG)
+    OPT = ("union", (("iter", V), "none"))
+    R1, R3 = f"{rule_prefix}.1", f"{rule_prefix}.3"
+    table = [
+        (R1, f"{CI}.are_d_separated", "d_separated", {"graph": G, "a": V, "b": V, "conditions": OPT}, (), "pipeline",
+         "ancestral graph of {a, b} ∪ C, every bidirected edge a latent common parent, moralised, C deleted, a and b disconnected; TypeError / "
+         "KeyError for malformed arguments only"),
+        (R3, "y0.struct.DSeparationJudgement.create", "canonical_judgement", {"left": V, "right": V, "conditions": OPT, "separated": "bool"}, (), "canonical",
+         "the pair in name order, the conditions a name-ordered tuple without repetition (no hash order, no argument order)",
+         {"impl_self_term": ("ref", "y0.struct.DSeparationJudgement")}),
+    ]
+    run_table(model, rep, table, "yvref.c04", lambda m_, prims: (lambda: Evaluator(m_, primitives=set(GRAPH_PRIMS) | set(prims))),
+              SetAlg(rewrite=rewriter(graph_rewrite)), construct=construct, loc=loc, post=nxden.post)
 
 
 def run(model: Model, rep: Report, tier: str) -> None:
@@ -221,7 +58,7 @@ def run(model: Model, rep: Report, tier: str) -> None:
         "Lauritzen's theorem (trusted)."
     )
     rep.trusted_base = ["networkx moral_graph / has_path / Graph.subgraph", "Lauritzen et al.: separation in the moral ancestral graph", "C14 for subgraph/ancestors_inclusive"]
-    rep.floors = {"R4.1": 1, "R4.2": 1, "R4.3": 2, "R4.4": 1, "R4.5": 3}
+    rep.floors = {"R4.1": 1, "R4.3": 1, "R4.5": 3}
     analyse_are_d_separated(model, rep)
     eff = Effects(model)
     for q in (f"{CI}.are_d_separated", f"{NXMG}.ancestors_inclusive", f"{NXMG}.subgraph"):
